@@ -45,6 +45,8 @@ type Reply struct {
 	A    []Reply
 	Pred func(Reply) bool
 	Note string
+	// Proto, when set on a model reply, demands the protocol-specific wire form (map vs. flat array)
+	Proto int
 }
 
 func Nil() Reply               { return Reply{K: KNil} }
